@@ -24,6 +24,7 @@ class Builder:
         self.heap = {}
         self.ops = []
         self.k = 0
+        self.arpack_fail = False  # this run is about an ARPACK call that does not converge
 
     def add(self, recipe, role, storage=None):
         name = f"a{self.k}"
@@ -71,6 +72,11 @@ class Builder:
             e["arpack"] = {"mode": rng.choice(["dense", "sparse", "orth", "same"]), "seed": _seed(rng)}
             if "interrupt" in allow and rng.random() < 0.5:
                 e["arpack"]["fail_at"] = rng.randint(1, 5)  # this ARPACK call does not converge
+        if self.arpack_fail and "arpack" in allow and "interrupt" in allow:
+            # the first (or an early) ARPACK call of this operation does not converge: a legal,
+            # rare outcome of eigsh/svds; no other fault competes with it in this operation
+            e["arpack"] = {"mode": rng.choice(["dense", "sparse", "same"]), "seed": _seed(rng), "fail_at": rng.choice([1, 1, 1, 2, 3])}
+            allow = [a for a in allow if a != "interrupt"]
         if "joblib" in allow and rng.random() < 0.8:
             e["joblib"] = {
                 "mode": rng.choice(["reorder", "reorder", "batch", "isolate", "twice"]),
@@ -176,7 +182,7 @@ def subj_selector(b, kind, pattern):
     envs = ["rng"]
     if fam == "voronoi":
         envs.append("clock")
-    if fam == "pcovcur":
+    if fam == "pcovcur" or (fam == "cur" and b.arpack_fail):
         envs.append("arpack")
     if p.get("progress_bar"):
         envs.append("stderr")
@@ -231,6 +237,8 @@ def subj_pcovr(b, kind, pattern):
     pdim = rng.randint(1, 3)
     kmax = min(min(XA["shape"]), min(XB["shape"])) - 1
     solver = rng.choice(["full", "full", "auto", "arpack", "randomized"])
+    if b.arpack_fail:
+        solver = "arpack"
     p = {"mixing": rng.choice([0.1, 0.5, 0.9, 1.0]), "n_components": rng.randint(1, max(1, min(kmax, 4))), "svd_solver": solver}
     if solver in ("arpack", "randomized"):
         p["random_state"] = rng.randrange(1000) if (pattern == "repeat" or rng.random() < 0.6) else None
@@ -277,6 +285,8 @@ def subj_kpcovr(b, kind, pattern):
     pdim = rng.randint(1, 2)
     kmax = min(XA["shape"][0], XB["shape"][0]) - 2
     solver = rng.choice(["full", "full", "auto", "arpack", "randomized"])
+    if b.arpack_fail:
+        solver = "arpack"
     kern = rng.choice(["linear", "rbf", "precomputed"])
     p = {"mixing": rng.choice([0.1, 0.5, 0.9]), "n_components": rng.randint(1, max(1, min(kmax, 3))), "svd_solver": solver, "kernel": kern}
     if kern == "rbf":
@@ -834,6 +844,13 @@ def gen_c09(rng, idx, tier, faults):
         if faults and rng.random() < 0.08:
             kind = "sample.VoronoiFPS"  # the only consumer of the wall clock
         r2 = rng.random()
+        if faults and rng.random() < 0.05:
+            # an ARPACK call inside fit does not converge (cooperative fault point), then the
+            # object is used further: parameters must be untouched, a later fit owes the
+            # fresh state
+            kind = rng.choice(["PCovR", "PCovR", "KernelPCovR", "KernelPCovR", "feature.PCovCUR", "sample.PCovCUR", "feature.CUR", "sample.CUR"])
+            b.arpack_fail = True
+            r2 = 0.7  # pattern "fault"
         if faults:
             pattern = "refit" if r2 < 0.35 else "repeat" if r2 < 0.55 else "fault" if r2 < 0.8 else "interleave" if r2 < 0.9 else "single"
         else:
